@@ -55,7 +55,7 @@ package hash
 //@ func (*ConsistentHash).removeRingNode
 //@   prop C13
 //@   opaque repr
-//@   requires h != nil
+//@   requires h != nil && h.ring != nil
 //@   loop 1 iteration-ensures [filter] (ret(repr) != nodeRepr) == (len(newNodes) == at_head(len(newNodes)) + 1) && (ret(repr) == nodeRepr) == (len(newNodes) == at_head(len(newNodes)))
 //@   loop 1 iteration-ensures [keeps-the-visited] ret(repr) != nodeRepr ==> newNodes[at_head(len(newNodes))] == at_head(nodes[rangeindex + 1]) && arg(repr, 0) == at_head(nodes[rangeindex + 1])
 //@   loop 1 invariant 0 <= rangeindex + 1 && rangeindex < len(nodes) && len(newNodes) <= rangeindex + 1 && newNodes.arr == nodes.arr && newNodes.off == nodes.off && newNodes.cap == nodes.cap
@@ -70,7 +70,7 @@ package hash
 //@ func (*ConsistentHash).AddWithReplicas
 //@   prop C13
 //@   opaque repr, Remove, addNode, Itoa
-//@   requires h != nil && h.replicas >= 0
+//@   requires h != nil && h.replicas >= 0 && h.ring != nil
 //@   let n = ite(old(replicas) > h.replicas, h.replicas, old(replicas))
 //@   loop 1 entry [starts-at-zero] i == 0
 //@   loop 1 invariant 0 <= i && (i <= n || i == 0) && replicas == n && calls(hashFunc) == i
